@@ -516,6 +516,8 @@ func main() {
 		}
 		mu.Unlock()
 	}
+	// 6. the dial timeout in time: an unreachable upstream (dial.go; random choices from a source of its own)
+	dialUnreachableClass(run, &mu)
 	transport.SetConfig(limits{}.cfg())
 	run.Finish(preamble, run.Scale(40, 400))
 }
